@@ -23,50 +23,102 @@ import (
 func globalsHash() uint64 { return deephash.Of(reftable.VerifGlobals()) }
 
 type jobResult struct {
-	Scenario   string   `json:"scenario"`
-	Why        string   `json:"why"`
-	Procs      int      `json:"processes"`
-	Bound      string   `json:"preemption_bound"`
-	Stats      mc.Stats `json:"stats"`
-	Outcomes   int      `json:"distinct_outcomes"`
-	Sample     []string `json:"sample_schedule"`
-	SampleOut  string   `json:"sample_outcome"`
-	Nontrivial int      `json:"nontrivial"`
-	Exhaustive bool     `json:"exhaustive"`
-	Wall       float64  `json:"wall_s"`
-	Err        string   `json:"error,omitempty"`
+	Scenario       string   `json:"scenario"`
+	Why            string   `json:"why"`
+	Procs          int      `json:"processes"`
+	Bound          string   `json:"preemption_bound"`
+	Stats          mc.Stats `json:"stats"`
+	Outcomes       int      `json:"distinct_outcomes"`
+	Sample         []string `json:"sample_schedule"`
+	SampleOut      string   `json:"sample_outcome"`
+	Nontrivial     int      `json:"nontrivial"`
+	Exhaustive     bool     `json:"exhaustive"`
+	Wall           float64  `json:"wall_s"`
+	FaultPositions int      `json:"fault_positions,omitempty"`
+	Err            string   `json:"error,omitempty"`
 }
 
 func runJob(prop string, sc *scenario, budget time.Duration, detCheck int) *jobResult {
 	res := &jobResult{Scenario: sc.Name, Why: sc.Why, Procs: len(sc.Procs)}
 	start := time.Now()
-	msc, err := sc.build(prop)
-	if err != nil {
-		res.Err = err.Error()
-		return res
-	}
-	e := mc.NewExplorer(msc)
-	e.DetCheck = detCheck
-	deadline := start.Add(budget)
-	e.Deadline = func() bool { return time.Now().After(deadline) }
+	var e *mc.Explorer
 	nontrivial := 0
 	var sample []string
-	e.OnExec = func(x *mc.Exec) {
-		// non-trivial: at least two processes were switched between while both unfinished
-		sw := 0
-		for i := 1; i < len(x.Schedule); i++ {
-			if x.Schedule[i] != x.Schedule[i-1] {
-				sw++
+	deadline := start.Add(budget)
+	var total mc.Stats
+	total.Outcomes = map[string]int{}
+	for k := 1; ; k++ {
+		if sc.FaultEnum {
+			sc.faultAt = k
+		}
+		msc, err := sc.build(prop)
+		if err != nil {
+			res.Err = err.Error()
+			return res
+		}
+		e = mc.NewExplorer(msc)
+		e.DetCheck = detCheck
+		if sc.FaultEnum {
+			e.DetCheck = 1
+		}
+		e.Deadline = func() bool { return time.Now().After(deadline) }
+		e.OnExec = func(x *mc.Exec) {
+			// non-trivial: at least two context switches between unfinished processes, or an injected fault
+			sw := 0
+			for i := 1; i < len(x.Schedule); i++ {
+				if x.Schedule[i] != x.Schedule[i-1] {
+					sw++
+				}
+			}
+			if sw >= 2 || sc.FaultEnum {
+				nontrivial++
+				if sample == nil {
+					sample = append([]string{}, x.Schedule...)
+				}
 			}
 		}
-		if sw >= 2 {
-			nontrivial++
-			if sample == nil {
-				sample = append([]string{}, x.Schedule...)
+		e.Explore()
+		if !sc.FaultEnum {
+			break
+		}
+		// accumulate over the enumerated fault positions
+		total.Executions += e.St.Executions
+		total.States += e.St.States
+		total.Transitions += e.St.Transitions
+		total.Completed += e.St.Completed
+		total.Cuts += e.St.Cuts
+		total.DetChecked += e.St.DetChecked
+		total.HorizonHits += e.St.HorizonHits
+		total.CapHit = total.CapHit || e.St.CapHit
+		if e.St.MaxDepth > total.MaxDepth {
+			total.MaxDepth = e.St.MaxDepth
+		}
+		for o, n := range e.St.Outcomes {
+			total.Outcomes[o] += n
+		}
+		for _, v := range e.St.Violations {
+			dup := false
+			for i := range total.Violations {
+				if total.Violations[i].Signature == v.Signature && total.Violations[i].Property == v.Property {
+					total.Violations[i].Count += v.Count
+					dup = true
+				}
 			}
+			if !dup {
+				v.Msg = fmt.Sprintf("[process 0's filesystem call #%d fails with EIO] %s", k, v.Msg)
+				total.Violations = append(total.Violations, v)
+			}
+		}
+		if e.St.HarnessErr != "" {
+			total.HarnessErr = e.St.HarnessErr
+		}
+		if e.St.FaultsSeen == 0 || e.St.HarnessErr != "" || k > 400 {
+			// k is beyond the last filesystem call of the program: every position has been covered
+			res.FaultPositions = k - 1
+			e.St = total
+			break
 		}
 	}
-	e.Explore()
 	res.Stats = e.St
 	res.Outcomes = len(e.St.Outcomes)
 	res.Stats.Outcomes = nil
